@@ -1443,8 +1443,61 @@ def gen_devices(rng, tier, with_cmds, with_states):
     return L
 
 
+def out_datum(rng, kind, t):
+    """what a getter followed by a terminal slot returns: Output<Datum<State>> / Output<Datum<Command>>; the outer timestamp is noise"""
+    r = rng.random()
+    if r < 0.60:
+        return "S@%d@%s" % (rng.choice([rng.randint(-9, 9), t, t + 1, I64_MIN, I64_MAX]), datum_state(rng, t) if kind == "s" else datum_cmd(rng, t))
+    if r < 0.78:
+        return "N"
+    return rng.choice(["E1", "E2", "E5", "EN"])
+
+
+def gen_followers(rng, tier, with_cmds, with_states, n_quick=120, n_thorough=900):
+    """terminals that FOLLOW scripted getters (`Settable::follow` on a Terminal; `Terminal::update` = command slot then state slot, `?`
+    after each; every device update starts with `update_terminals()?` = owned terminals in order): present / absent / erroring getters on
+    several slots at once, so that which slot was forwarded before the first error — and whether the device's own update ran — shows in
+    the own slots (`oa`) and in the return value"""
+    L = []
+    kinds = ([("s", "fs", "nfs", "gs")] if with_states else []) + ([("c", "fc", "nfc", "gc")] if with_cmds else [])
+    for _ in range(n_of(tier, n_quick, n_thorough)):
+        setup, nt = rng.choice(list(device_setups(rng)))
+        if nt is None:
+            nt = int(setup.split(":")[1])
+        if nt == 0:
+            continue
+        ops = []
+        t = rng.randint(-10 ** 9, 10 ** 9)
+        conn = [rng.random() < 0.4 for _ in range(nt)]
+        for i in range(nt):
+            if conn[i]:
+                ops.append("c:%d:%d" % (i, nt + i))
+        # start with most owned slots following something
+        for i in range(nt):
+            for (k, fol, unfol, gs) in kinds:
+                if rng.random() < 0.7:
+                    ops.append("%s:%d" % (fol, i))
+                if rng.random() < 0.8:
+                    ops.append("%s:%d:%s" % (gs, i, out_datum(rng, k, t + rng.randint(0, 1000))))
+        for _ in range(rng.randint(3, n_of(tier, 14, 30))):
+            t += rng.randint(0, 10 ** 6)
+            i = rng.randrange(2 * nt) if rng.random() < 0.25 else rng.randrange(nt)
+            (k, fol, unfol, gs) = rng.choice(kinds)
+            r = rng.random()
+            if r < 0.30: ops.append("%s:%d:%s" % (gs, i, out_datum(rng, k, t)))
+            elif r < 0.40: ops.append("%s:%d" % (fol, i))
+            elif r < 0.45: ops.append("%s:%d" % (unfol, i))
+            elif r < 0.53: ops.append(("ss:%d:%s" % (i, datum_state(rng, t))) if k == "s" else ("sc:%d:%s" % (i, datum_cmd(rng, t))))
+            elif r < 0.65: ops += ["tu:%d" % i, "oa"]
+            elif r < 0.72: ops += ["ut:0", "oa"]
+            else: ops += ["u:0", "oa"] + (["ra"] if rng.random() < 0.4 else [])
+        ops += ["u:0", "oa", "ra"]
+        L.append("dv %s free:%d -- %s" % (setup, nt, " ".join(ops)))
+    return L
+
+
 def gen_C08(rng, tier):
-    return gen_devices(rng, tier, with_cmds=False, with_states=True)
+    return gen_devices(rng, tier, with_cmds=False, with_states=True) + gen_followers(rng, tier, with_cmds=False, with_states=True)
 
 
 def gen_C13(rng, tier):
@@ -1477,6 +1530,7 @@ def gen_C13(rng, tier):
                 ops.append("u:%d" % d)
             ops.append("ra")
         L.append("dv %s -- %s" % (" ".join(setup), " ".join(ops)))
+    L += gen_followers(rng, tier, with_cmds=True, with_states=rng.random() < 0.5)
     return L
 
 
@@ -1709,6 +1763,7 @@ def gen_C15(rng, tier):
         L.append("st tgfg f %s" % mk_out(rng, ci, rng.randint(-99, 99)))
         for ct in ["T:5", "E1"]:
             L.append("st const f %s %s" % (ct, mkf(rng)))
+    L += gen_followers(rng, tier, with_cmds=True, with_states=True, n_quick=200, n_thorough=1500)     # a Terminal is a Settable too
     return L
 
 
